@@ -59,7 +59,10 @@ ASSUMPTIONS = [
     "the cached verdict is recomputed after resolvers are registered / reassigned AND after `field.arguments = [...]` (fix C13-HHH3: the rule relates a "
     "resolver to the arguments); types, names and members edited IN PLACE (`field.type = T`, `field.name = n`, `type.fields = [...]`) followed by "
     "`Schema.validate()` on the same Schema object are outside the statement ('recomputed after ... resolvers are reassigned'): covered only through "
-    "a cache reset (replace request / fresh Schema), stream H",
+    "a cache reset (replace request / fresh Schema), stream H; stream L executes every kind of structural plain assignment between two "
+    "validate() calls and compares outcome / cache flag with the cache machine (op assignStructure): the stale verdicts it meets for the untracked "
+    "kinds are COUNTED in the evidence (`outside_statement_stale_after_structural_setter`, Lean: cache_unsound_unseen_structural_setter, "
+    "cache_sound_all_mutators_fails_today), not reported; for the tracked kinds (argument type / default, number of fields) they are failures",
     "plain assignment of resolvers (`schema.default_resolver = f`, `type.default_resolver = f`, `field.resolver = f`, "
     "`field.subscription_resolver = f`: documented in docs/usage/defining-resolvers.rst) is part of the histories; the model follows fix C13-HH1",
     "limit of any signature-based rule: `functools.partial(f, v)` hides the positionally bound parameter from `inspect.signature` although "
@@ -2826,6 +2829,166 @@ def stream_histories(ctx, batch):
         batch.add({"op": "history", "schema": start, "cached": cached0, "ops": mops}, cont)
 
 
+# ---- L: the remaining public setters (structure edited by plain assignment) and the verdict cache --------------------
+
+STRUCTURAL_KINDS = ["field_type_input", "field_type_benign", "interfaces_object", "union_clear", "input_fields_clear",
+                    "input_field_type_object", "arg_type_object", "arg_default_added", "fields_extra", "type_name_reserved"]
+# kinds that touch what fix C13-HHH3 made part of the cached verdict (the argument objects of a field and their
+# type / default, the number of fields): for these a stale verdict IS a failure of the property
+TRACKED_KINDS = {"arg_type_object", "arg_default_added", "fields_extra"}
+
+
+def apply_structural_setter(rng, s, kind):
+    """One plain assignment through a public setter of types.py on a live schema; False = no target in this schema."""
+    from py_gql.schema import ObjectType, InterfaceType, UnionType, InputObjectType, Field, Int, String
+    user = [t for t in s.types.values() if not t.name.startswith("__") and t.name not in gs.SCALARS]
+    objs = [t for t in user if isinstance(t, ObjectType)]
+    inputs = [t for t in user if isinstance(t, InputObjectType)]
+    unions = [t for t in user if isinstance(t, UnionType)]
+    if kind == "field_type_input":
+        if not inputs:
+            return False
+        rng.choice(rng.choice(objs).fields).type = rng.choice(inputs)
+    elif kind == "field_type_benign":
+        cands = [f for t in objs for f in t.fields if getattr(f.type, "name", None) in ("Int", "String")
+                 and not any(f.name in getattr(i, "field_map", {}) for i in t.interfaces)]
+        if not cands:
+            return False
+        f = rng.choice(cands)
+        f.type = String if f.type is Int else Int
+    elif kind == "interfaces_object":
+        if len(objs) < 2:
+            return False
+        a, b = rng.sample(objs, 2)
+        a.interfaces = list(a.interfaces) + [b]
+    elif kind == "union_clear":
+        if not unions:
+            return False
+        rng.choice(unions).types = []
+    elif kind == "input_fields_clear":
+        if not inputs:
+            return False
+        rng.choice(inputs).fields = []
+    elif kind == "input_field_type_object":
+        cands = [t for t in inputs if t.fields]
+        if not cands:
+            return False
+        rng.choice(rng.choice(cands).fields).type = rng.choice(objs)
+    elif kind in ("arg_type_object", "arg_default_added"):
+        cands = [a for t in objs for f in t.fields for a in f.arguments
+                 if kind == "arg_type_object" or (not a.has_default_value and getattr(a.type, "name", None) == "Int")]
+        if not cands:
+            return False
+        a = rng.choice(cands)
+        if kind == "arg_type_object":
+            a.type = rng.choice(objs)
+        else:
+            a.default_value = "not-an-int"
+    elif kind == "fields_extra":
+        t = rng.choice(objs)
+        t.fields = list(t.fields) + [Field("__zz_bad", Int)]
+    elif kind == "type_name_reserved":
+        cands = [f for t in objs for f in t.fields]
+        rng.choice(cands).name = "__zz"
+    else:
+        return False
+    return True
+
+
+def snapshot_seen(schema, before):
+    """Does the comparison `Schema.validate()` makes (`_current_resolvers()` against what it validated, by identity) see
+    the assignment? (private API of the tree under test; a tree without it compares nothing: not seen)"""
+    cur = getattr(schema, "_current_resolvers", None)
+    if cur is None or before is None:
+        return False
+    import py_gql.schema.schema as _m
+    same = getattr(_m, "_same_objects", None)
+    return not (same(before, cur()) if same is not None else before == cur())
+
+
+def structural_case(ctx, batch, seed, kind):
+    """validate() -> one structural plain assignment -> validate(): outcome and cache flag against the cache machine (op
+    `assignStructure`, Props.C13.structural_setter_seen_sound / cache_unsound_unseen_structural_setter); for the TRACKED
+    kinds a verdict that is not recomputed is a failure of the property, for the others it is recorded only (ASSUMPTIONS)."""
+    import random
+    from py_gql.exc import GraphQLError
+    rng = random.Random(seed)
+    d0 = add_resolvers(rng, add_arg_cluster(base_schema(rng, rng.choice([0, 0, 1]), cluster=rng.random() < 0.5)), p=0.15)
+    s = try_build(ctx, build_code, d0)
+    if s is None:
+        return None
+    if real_validate(s)[0] != "valid":
+        return None
+    try:
+        s.validate()
+    except GraphQLError:
+        return None
+    start, cached0 = dump(s), verdict_cached(s)
+    cur = getattr(s, "_current_resolvers", None)
+    before = cur() if cur is not None else None
+    try:
+        if not apply_structural_setter(rng, s, kind):
+            return None
+    except Exception as exc:  # noqa  (a setter refusing the value)
+        ctx.stat("structural-setter-refused:%s:%s" % (kind, type(exc).__name__))
+        return None
+    seen = snapshot_seen(s, before)
+    trace = [{"outcome": "ok", "cached": verdict_cached(s), "fresh_valid": real_validate(s)[0] == "valid"}]
+    try:
+        s.validate()
+        outcome = "ok"
+    except GraphQLError as exc:
+        outcome = type(exc).__name__
+    except Exception as exc:  # noqa
+        outcome = "internal:" + type(exc).__name__
+    trace.append({"outcome": outcome, "cached": verdict_cached(s), "fresh_valid": trace[0]["fresh_valid"]})
+    mops = [{"op": "assign_structure", "schema": dump(s), "seen": seen}, {"op": "validate"}]
+    ctx.count()
+    ctx.stat("structural-setter:%s:%s:%s" % (kind, "seen" if seen else "unseen", "still-valid" if trace[0]["fresh_valid"] else "now-invalid"))
+    ctx.nontrivial(("structural", kind, canon_schema.canon(start)))
+    detail = {"how": "structural-setter", "structural_seed": seed, "kind": kind, "trace": trace, "seen": seen}
+    fails = []
+    if outcome.startswith("internal"):
+        fails.append(("structural-setter-raises:%s:%s" % (kind, outcome), "validate() raises an undocumented exception after a plain assignment", "property"))
+    if outcome == "ok" and not trace[0]["fresh_valid"]:
+        if kind in TRACKED_KINDS:
+            fails.append(("stale-verdict-after:structural-setter:%s" % kind,
+                          "validate() accepts although the current schema is invalid (the assignment concerns what the cached verdict stands for)", "property"))
+        else:
+            ctx.stat("outside-statement:stale-verdict-after-structural-setter:%s" % kind)
+            ctx.extra.setdefault("outside_statement_stale_after_structural_setter", {})
+            ctx.extra["outside_statement_stale_after_structural_setter"][kind] = \
+                ctx.extra["outside_statement_stale_after_structural_setter"].get(kind, 0) + 1
+
+    def cont(ans, trace=trace, detail=detail):
+        mt = ans.get("trace", [])
+        if [(a["outcome"], a["cached"], a["fresh_valid"]) for a in trace] != [(b.get("outcome"), b.get("cached"), b.get("fresh_valid")) for b in mt]:
+            ctx.fail("corr:history:assign_structure:%s" % detail["kind"], "cache machine and Schema differ after a structural plain assignment",
+                     dict(detail, model_trace=mt), kind="correspondence")
+    if batch is not None and ctx.model_ok:
+        batch.add({"op": "history", "schema": start, "cached": cached0, "ops": mops}, cont)
+    for sig, what, knd in fails:
+        ctx.fail(sig, what, detail, kind=knd)
+    return not fails
+
+
+def stream_structural_setters(ctx, batch):
+    """every kind of structural setter, a fixed quota per kind in every run (own PRNG per case: the other streams'
+    draws are untouched)"""
+    base = 0x51C0DE
+    want = ctx.n(3, 12)
+    for kind in STRUCTURAL_KINDS:
+        got = 0
+        for j in range(want * 10):
+            if got >= want or ctx.time_left() < 6:
+                break
+            r = structural_case(ctx, batch, base + 1009 * j + (__import__("zlib").crc32(kind.encode()) & 0xFFFF), kind)
+            if r is not None:
+                got += 1
+        if got == 0:
+            ctx.stat("structural-setter-never-applicable:" + kind)
+
+
 # ---------------------------------------------------------------------------------------------
 
 def corpus_cases(ctx, batch):
@@ -2865,6 +3028,7 @@ def run(ctx):
     stream_permutations(ctx, batch)
     stream_histories(ctx, batch)
     stream_valid_and_injected(ctx, batch)
+    stream_structural_setters(ctx, batch)
     batch.flush()
     ctx.extra.pop("_shrunk", None)
     ctx.extra["extraction"] = attribution_mode()
@@ -2886,6 +3050,8 @@ def _to_tuples(x):
 def replay(ctx, data):
     """True = the property holds on this input."""
     inp = data.get("input", {})
+    if inp.get("how") == "structural-setter":
+        return bool(structural_case(ctx, None, inp["structural_seed"], inp["kind"]))
     how = inp.get("how", "")
     if not how:
         return True     # not a failing-input replay (e.g. a record of what no longer checks)
